@@ -312,6 +312,10 @@ class ServerSocket(FakeSocket):
         f = peer.faults.get((self.n, 'kexinit'))
         if f is not None:
             self.chunks = [peer.banner] + fault_chunks(packet(peer.kex), f)
+        ta = getattr(peer, 'throttle_after', None)
+        if ta is not None and self.n >= ta:
+            # connections beyond the ta-th are throttled: no identification string, only this answer (None: closed at once)
+            self.chunks = [getattr(peer, 'throttle_answer', b'Exceeded MaxStartups\r\n')]
         f = peer.faults.get((self.n, 'banner'))
         if f is not None:
             rest = self.chunks[1:] if f[0] in ('prebanner', 'segment', 'dup') else []
